@@ -127,7 +127,7 @@ class StatementSplitter:
 
     def process(self, stream):
         """Process the stream"""
-        EOS_TTYPE = T.Whitespace, T.Comment.Single
+        EOS_TTYPE = T.Whitespace, T.Comment.Single, T.Comment.Single.Hint
 
         # Run over all stream tokens
         for ttype, value in stream:
